@@ -54,6 +54,7 @@ def run(ctx):
                 ctx.report('lookup table %s %s: expected %s, real gadget: %s' % (rr['builder'], re.sub(r'size=\d+', 'size=N', rr['case']), rr['want'], rr['outcome']),
                            {'curve': curve, 'result': rr})
     plain(ctx, quick)
+    bind(ctx, curves[0])
     ctx.sample(behs[5])
     ctx.sample(behs[100])
 
@@ -94,3 +95,28 @@ def plain(ctx, quick):
             ctx.report('bit-decomposition range check admits an out-of-range assignment: %s' % e['name'],
                        {'case': e['name'], 'examples': e['violations'], 'count': e['nb_violations']})
     ctx.extra['plain_checker_programs'] = len(behs)
+
+
+def bind(ctx, curve):
+    """LogDerivBinding.tla: TLC plays the adaptive-prover game over a toy field for every set of committed groups and
+    checks that the argument is sound exactly when queries and multiplicities are bound before the challenge; the
+    committed wire set of compiled range-check / lookup circuits must contain every wire of every needed group."""
+    r = ctx.tlc('LogDerivBinding', 'LogDerivBinding.cfg', workers=1, timeout=1800)
+    if len(r.beh) != 4:
+        raise vlib.Infra('LogDerivBinding produced %d configurations' % len(r.beh))
+    res = ctx.harness(['c13bind', '--curve', curve], r.beh, timeout=1800)
+    needed = {b['config']: set(b['needed']) for b in r.beh}
+    if len(res) < 12:
+        raise vlib.Infra('short binding extraction')
+    for rr in res:
+        if rr.get('err'):
+            raise vlib.Infra('binding extraction: %s' % rr)
+        ctx.case(key='bind %s %s' % (rr['config'], rr['variant']), nontrivial=True)
+        ctx.traces += 1
+        for g in sorted(needed[rr['config']]):
+            grp = rr['groups'].get(g)
+            if not grp or grp['wires'] == 0:
+                raise vlib.Infra('binding extraction found no %s wires in %s %s' % (g, rr['config'], rr['variant']))
+            if grp['committed'] != grp['wires']:
+                ctx.report('log-derivative argument (%s): %s wires are not bound by the commitment the challenge is derived from' % (rr['config'], g),
+                           {'config': rr['config'], 'variant': rr['variant'], 'groups': rr['groups'], 'needed': sorted(needed[rr['config']])})
